@@ -25,7 +25,8 @@ def harness(sym):
     from openpectus.engine.engine_message_builder import EngineMessageBuilder
     t = sym.shard["template"]
     pause_at = sym.shard.get("pause_at")
-    with engine_rig(sym, TEMPLATES[t], durations={"SetOut1": 2}) as rig:
+    second_run = sym.shard.get("second_run", False)
+    with engine_rig(sym, TEMPLATES[t], durations={"SetOut1": 2}, accumulators=second_run) as rig:
         e = rig.engine
         with sym.concrete():
             mb = EngineMessageBuilder(e, "", False)
@@ -47,6 +48,14 @@ def harness(sym):
                 rig.user("Unpause")
             if i == 8:
                 e.uod.hwl.mem["In1"] = in1_after
+            if second_run:
+                # a first run with flow through the totalizer, Stop, and a second run without flow
+                if i < 7:
+                    e.uod.hwl.mem["Tot"] = 0.5 * (i + 1)
+                if i == 7:
+                    rig.user("Stop")
+                if i == 11:
+                    rig.user("Start")
             rig.tick(0.1)
             sym.check(not rig.tick_errors, "tick-raised", f"Engine.tick raised {rig.tick_errors[:1]}")
             since += 1
@@ -77,6 +86,9 @@ def _shards(tier):
     for t in TEMPLATES:
         for p in ([None, 6] if tier == "quick" else [None, 3, 6, 9, 12]):
             out.append({"template": t, "pause_at": p})
+    out.append({"template": "outputs", "pause_at": None, "second_run": True})
+    if tier != "quick":
+        out += [{"template": t, "pause_at": None, "second_run": True} for t in ("block_sim", "resimulate")]
     return out
 
 
@@ -88,7 +100,7 @@ OBLIGATIONS = [Obligation(
              "openpectus.lang.exec.tags_impl:ScopeTimeTag.on_tick", "openpectus.lang.exec.tags:Tag.set_value", "openpectus.lang.exec.tags:Tag.stop_simulation"],
     symbolic="number of ticks before each report (1..3, one solver variable per report)",
     bounds={"quick": "3 templates (block + simulation + wait; output command + watch + run counter + base; repeated simulate / simulate off of one tag with equal and different values while the real value changes) x {no pause, pause at tick 6}, 18 ticks",
-            "thorough": "same templates, pause at ticks 3/6/9/12 or none"},
+            "thorough": "same templates, pause at ticks 3/6/9/12 or none; both tiers: a UOD with totalizer / accumulated volume and CV tags, first run with flow, Stop at tick 7, second Start at tick 11"},
     assumptions=["tick interval fixed at 0.1 s (values concrete; pydantic models are built by the real to_model_tag)",
                  "fake hardware; log statements removed at import"],
 )]
